@@ -82,7 +82,7 @@ PROPS = {
         "check": "c12_check",
         "mismatch_is_violation": True,
         "theories": ["theories/Base.v", "theories/Nonce.v", "theories/Store.v", "theories/StoreProofs.v",
-                     "theories/PeersProofs.v"],
+                     "theories/PeersProofs.v", "theories/PeersFrame.v"],
         "check_theories": ["theories/Check12.v"],
         "level_text": "Coq theorems over the contract model's UpdateNodePeers for every state, report and instant: the "
                       "declared-invalid set is exactly the candidates whose judged timestamp is outside the window, the "
@@ -218,7 +218,7 @@ PROPS = {
                       "what the pool owes by paid + fee; racing withdrawals interleaved with any other requests remove "
                       "from the ledger exactly what each settled. Tied to the code by in-kernel evaluation on "
                       "accrual/withdrawal histories of the real PaymentService (settle handler recording amounts, "
-                      "failing on scripted attempts), both drivers, and by racing withdrawals of one wallet. Racing withdrawals: the keyed-lock model (Locks.v) proves mutual exclusion for a lock whose map entry is never removed, for any number of racing requests and any schedule, refutes the entry-removing variant with a chain of three, and the shape of Withdraw's lock is a fact regenerated from the source; staged chains of 3-5 overlapping withdrawals are forced on the real service through a settlement gate. The production wiring is exercised as well: payment.ContractPayment as balance store and its OpSettle as settlement, over the real VipnodePool contract deployed on go-ethereum's simulated chain (deposits, timelocked deposits, fee styles, minimum, immediate repeats with the first settlement still pending), with paid amount, remaining deposit and remaining credit read from the chain and the ledger, and compared in-kernel with the deposit-cache model (Deposit.v: cache in front of the contract, pending settlements, Balance events at mining, pool restarts), for which Coq proves that no history pays a wallet more than it put in and earned and that an immediate repeat pays nothing, and refutes the event-only cache refresh of the pinned code (D29).",
+                      "failing on scripted attempts), both drivers, and by racing withdrawals of one wallet. Racing withdrawals: the keyed-lock model (Locks.v) proves mutual exclusion for a lock whose map entry is never removed, for any number of racing requests and any schedule, refutes the entry-removing variant with a chain of three, and the shape of Withdraw's lock is a fact regenerated from the source; staged chains of 3-5 overlapping withdrawals are forced on the real service through a settlement gate. The production wiring is exercised as well: payment.ContractPayment as balance store and its OpSettle as settlement, over the real VipnodePool contract deployed on go-ethereum's simulated chain (deposits, timelocked deposits, fee styles, minimum, immediate repeats with the first settlement still pending), with paid amount, remaining deposit and remaining credit read from the chain and the ledger, and compared in-kernel with the deposit-cache model (Deposit.v: cache in front of the contract, pending settlements, Balance events at mining, pool restarts), for which Coq proves that no history pays a wallet more than it put in and earned and that an immediate repeat pays nothing, and refutes the event-only cache refresh of the pinned code (D29). Since rounds 8-9: the deposit-cache model also covers other accounts crowding the cache under no bound or any bound that drops what it cannot store (never overpaid, an immediate repeat pays nothing; a bound that keeps old entries is refuted), the many-accounts scenario is compared with it in-kernel, and the shipped pool binary is run with --contract.* against the simulated chain behind a JSON-RPC endpoint of the harness (pool_account, two signed pool_withdraw, ether received on-chain).",
         "level_note": "Trusted: Coq kernel; the settle handler and deposit proxy are harness code standing for the "
                       "contract (settlement sets the on-chain balance to the new balance 0); withdrawals are serialized "
                       "by the service mutex (Go sync.Mutex).",
@@ -287,7 +287,7 @@ PROPS = {
         "check": "c08_check",
         "mismatch_is_violation": True,
         "theories": ["theories/Base.v", "theories/Nonce.v", "theories/Store.v", "theories/StoreProofs.v",
-                     "theories/ReqHosts.v", "theories/ReqHostsProofs.v", "gen/Facts.v", "theories/Agent.v", "theories/Compose.v"],
+                     "theories/ReqHosts.v", "theories/ReqHostsProofs.v", "gen/Facts.v", "theories/Agent.v", "theories/Compose.v", "theories/PeersFrame.v"],
         "check_theories": ["theories/Check08.v"],
         "level_text": "Coq theorems over the requestHosts model, for every store answer satisfying the ActiveHosts "
                       "contract, every registry and every assignment of whitelist outcomes: each returned host is an "
@@ -317,7 +317,7 @@ PROPS = {
         "check": "c09_check",
         "diag": "c09_diag",
         "mismatch_is_violation": True,
-        "theories": ["theories/Base.v", "theories/ReqHosts.v", "theories/ReqHostsProofs.v", "gen/Facts.v", "theories/Agent.v", "theories/Compose.v"],
+        "theories": ["theories/Base.v", "theories/ReqHosts.v", "theories/ReqHostsProofs.v", "gen/Facts.v", "theories/Agent.v", "theories/Compose.v", "theories/PeersFrame.v"],
         "check_theories": ["theories/Check08.v"],
         "level_text": "Coq theorems over the registry model for every history of registrations and closes (no "
                       "registration arrives on a closed connection): a host is instructable, and on exactly which "
@@ -344,7 +344,7 @@ PROPS = {
         "case_type": "c19_case",
         "check": "c19_check",
         "mismatch_is_violation": True,
-        "theories": ["theories/Base.v", "theories/NodeURI.v", "theories/NodeURIProofs.v"],
+        "theories": ["theories/Base.v", "theories/NodeURI.v", "theories/NodeURIProofs.v", "theories/Nonce.v", "theories/Store.v", "theories/StoreProofs.v", "theories/HandedOut.v"],
         "check_theories": ["theories/Check19.v"],
         "level_text": "Coq theorems over byte-string models of normalizeNodeURI and of net.JoinHostPort/SplitHostPort: the "
                       "stored address always carries the authenticated node id and an override naming another id is "
@@ -445,7 +445,7 @@ PROPS = {
                       "keep-alive makes no call on the node; all of it for every round of a multi-round history. Tied "
                       "to the code by running the real Agent (Start, then UpdatePeers) against a recording fake "
                       "EthNode and a scripted pool and comparing, in-kernel, the exact call sequence and result class "
-                      "of every round with the model's.",
+                      "of every round with the model's. Since round 9 the round is also run through the real geth and parity drivers (ethnode.RemoteNode) against a node that speaks both RPC dialects over go-ethereum's in-process RPC: every returned host is connected to at the address the pool returned, every invalid peer is dropped under its id.",
         "level_note": "Trusted: Coq kernel; enode string parsing (net/url, ethnode.ParseNodeURI) reaches the model as "
                       "(parsed?, id, remote host) computed by the same library calls the agent makes.",
         "technique": "Coq proof over a call-log model + vm_compute correspondence against the real Agent",
@@ -458,12 +458,12 @@ PROPS = {
     },
     "C20": {
         "harness": "c20",
-        "imports": ["Base", "Life", "Check20"],
-        "case_type": "c20_case",
-        "check": "c20_check",
-        "diag": "c20_diag",
+        "imports": ["Base", "Life", "Inflight", "Check20"],
+        "case_type": "c20_any",
+        "check": "c20_any_check",
+        "diag": "c20_any_diag",
         "timeout_quick": 900,
-        "theories": ["theories/Base.v", "theories/Life.v", "theories/LifeProofs.v", "gen/Facts.v", "theories/Claim.v", "theories/ClaimProofs.v"],
+        "theories": ["theories/Base.v", "theories/Life.v", "theories/LifeProofs.v", "theories/Inflight.v", "theories/InflightProofs.v", "gen/Facts.v", "theories/Claim.v", "theories/ClaimProofs.v"],
         "check_theories": ["theories/Check20.v"],
         "level_text": "Coq theorems over the lifecycle transition system (started flag, live loops, results queued for "
                       "Wait): for every sequence of starts (succeeding, failing at connect or at the first keep-alive), "
@@ -473,7 +473,13 @@ PROPS = {
                       "keep-alive ends the loop with its error and allows a restart; each interval sends one keep-alive "
                       "per live loop; the variant without the flag (the pinned tree) runs two loops. The command-line "
                       "bound: any accepted interval is below ExpireInterval, computed from the regenerated constants "
-                      "(maxUpdateInterval = ExpireInterval = 2 x KeepaliveInterval). PARTIAL: real timers (time.Tick) "
+                      "(maxUpdateInterval = ExpireInterval = 2 x KeepaliveInterval). A finer transition system (Inflight: "
+                      "calls and returns of Start/Stop/Wait, begin and end of every keep-alive, keep-alives of any "
+                      "duration) proves that after a Stop has returned no keep-alive begins until the next Start, that "
+                      "Stop returns only with the loop idle and ended and the result queued, and refutes a Stop that "
+                      "gives up while a keep-alive is in flight; the event histories logged by the harness (every "
+                      "lifecycle sequence, and a Stop during a 3.6 s keep-alive) are checked in-kernel to be histories "
+                      "of that system. PARTIAL: real timers (time.Tick) "
                       "and goroutine scheduling are runtime behaviour; the model proves the bookkeeping. Tied to the code "
                       "by scripted start/stop/wait/pool-failure sequences on the real Agent (25 ms interval) against a "
                       "counting fake pool, with the number of live loops estimated from the keep-alive rate, and by "
@@ -490,11 +496,11 @@ PROPS = {
     },
     "C14": {
         "harness": "c14",
-        "imports": ["Base", "Routing", "Check14"],
-        "case_type": "c14_case",
-        "check": "c14_check",
+        "imports": ["Base", "Routing", "Recycle", "Check14"],
+        "case_type": "c14_any",
+        "check": "c14_any_check",
         "timeout_quick": 900,
-        "theories": ["theories/Base.v", "theories/Routing.v", "theories/RoutingProofs.v"],
+        "theories": ["theories/Base.v", "theories/Routing.v", "theories/RoutingProofs.v", "theories/Recycle.v", "theories/RecycleProofs.v"],
         "check_theories": ["theories/Check14.v"],
         "level_text": "Coq theorems over a labelled transition system of jsonrpc2.Remote's reply routing (pending table of "
                       "one-slot channels identified by id and generation, fresh request ids, the discard rule): for "
@@ -509,7 +515,7 @@ PROPS = {
                       "before the call exists, random limits) on a real Remote through a harness-controlled codec and "
                       "comparing every call's final phase and the pending-table size in-kernel; plus two Remotes over a "
                       "reordering transport with 8-50 concurrent callers per side, nested call-backs of depth 0-4, "
-                      "cancellations, and more calls in flight than the pending limit.",
+                      "cancellations, and more calls in flight than the pending limit. Since round 9: a second transition system with reply channels as objects and Serve's lookup and send as separate steps (Recycle) proves own-reply for the code as it is (channels never handed to a second call) and refutes channel recycling, drained or not; the forced cancel/reply races on a real Remote are checked in-kernel to be histories of it with the observed results.",
         "level_note": "Trusted: Coq kernel; request ids are fresh (atomic counter; wrap-around after 2^31 calls per "
                       "connection is outside the model); the harness pauses 1.5 ms between labels so that each real "
                       "goroutine reaches the modelled step; Go channels and mutexes.",
